@@ -48,9 +48,11 @@ SHAPES = {
          'login of the admin token provider'),
     ],
     AUTH + '/providers/config_file.rs': [
-        ('auth_from_session', 0, ['self.roles.get(&session.secrets.role).map(|role| { AuthInfo::user(session.user_id.clone(), role) })',
+        ('auth_from_session', 0, ['let user = self.users.get(session.user_id.as_ref()).ok_or_else(|| { ApiAuthError::ApiInvalidCredentials(',
+                                  '})?;',
+                                  'self.roles.get(&user.role).map(|role| { AuthInfo::user(session.user_id.clone(), role) })',
                                   'ApiAuthError::ApiAuthPermanentError('],
-         'role looked up under the role name of the session'),
+         'user of the session looked up in the current user table (gone: invalid credentials), role of that entry (a7a0b51d)'),
         ('authenticate', 0, ['match httpclient::get_bearer_token(request) {', 'Some(token) => {',
                              'let session = self.session_cache.decode( token, &self.session_key, true, ).await?;',
                              'Ok(Some((self.auth_from_session(&session)?, None)))', '_ => Ok(None),'],
@@ -66,12 +68,13 @@ SHAPES = {
                       'scrypt( &interim_hash, strong_salt.as_slice(), &params, &mut hashed_hash, )',
                       'let encoded_hash = hex::encode(hashed_hash);',
                       'if encoded_hash != user_password_hash {', 'return Err(Error::ApiInvalidCredentials(',
-                      'let user = match self.users.get(username.as_str()) {', 'return Err(Error::ApiInvalidCredentials(',
+                      'let user = match self.users.get(auth.username.as_str()) {', 'return Err(Error::ApiInvalidCredentials(',
                       'let role = self.roles.get(&user.role).ok_or_else(', 'ApiAuthError::ApiAuthPermanentError(',
                       'if !role.is_allowed(Permission::Login, None) {', 'return Err(Error::ApiInsufficientRights(reason));',
+                      'let username = Arc::<str>::from(auth.username.as_str());',
                       'let api_token = self.session_cache.encode( username.clone(), SessionSecret { role: user.role.clone() }, &self.session_key, None, ).await?;',
                       'Ok(LoggedInUser::new(api_token, username, user.role.clone()))'],
-         'raw-name hash lookup, normalisation, normalised-name user lookup, login permission, session without expiry'),
+         'hash, identity and role from the entry under the name as submitted (a6855108), normalised name in the weak salt only, login permission, session without expiry'),
         ('logout', 0, ['match httpclient::get_bearer_token(request) {', 'self.session_cache.remove(&token).await;',
                        'self.authenticate(request).await'],
          'logout drops the cache entry and authenticates again'),
@@ -100,6 +103,9 @@ SHAPES = {
         ('remove', 0, ['self.cache.write().await.remove(token);'], 'remove drops the cache entry only'),
     ],
     AUTH + '/crypt.rs': [
+        ('new', 0, ['let mut sender_unique: [u8; 4] = [0; 4];', 'openssl::rand::rand_bytes(&mut sender_unique)', 'sender_unique,', 'counter: AtomicU64::new(0),'],
+         'a nonce state starts with a random sender id and the counter at 0'),
+        ('from_key_bytes', 0, ['Ok(CryptState { key, nonce: NonceState::new()?, })'], 'a crypt state made from key bytes gets a new nonce state'),
         ('next', 0, ['let count = self.counter.fetch_add(1, Ordering::SeqCst);', 'nonce[0..4].copy_from_slice(&self.sender_unique);',
                      'nonce[4..].copy_from_slice(&count.to_ne_bytes());'], 'nonce = sender id | counter'),
         ('encrypt', 0, ['let nonce = nonce.next();', 'let cipher = openssl::symm::Cipher::chacha20_poly1305();',
@@ -112,9 +118,9 @@ SHAPES = {
                         'openssl::symm::decrypt_aead( cipher, key, Some(nonce), &UNUSED_AAD, cipher_text, tag, )',
                         '.map_err(|err| { ApiAuthError::ApiInvalidCredentials('],
          'AEAD decryption with the tag of the payload'),
-        ('crypt_init', 0, ['if let Some(state) = store.get(None, CRYPT_STATE_KEY)? { Ok(state) }', 'let state = CryptState::from_key_bytes(key_bytes)?;',
-                           'store.store_new(None, CRYPT_STATE_KEY, &state)?;'],
-         'key and nonce state stored once, read back at every start'),
+        ('crypt_init', 0, ['if let Some(state) = store.get::<CryptState>(None, CRYPT_STATE_KEY)? { CryptState::from_key_bytes(state.key) }',
+                           'let state = CryptState::from_key_bytes(key_bytes)?;', 'store.store_new(None, CRYPT_STATE_KEY, &state)?;'],
+         'the stored key is kept, the nonce state is made anew at every start (e31fb922)'),
     ],
     AUTH + '/authorizer.rs': [
         ('new', 0, ['AuthType::AdminToken => { (admin_token::AuthProvider::new(config).into(), None) }',
